@@ -428,8 +428,9 @@ class API:
             # Replace `.` with `_` in the basename as
             # `.` is not a valid character for modules names.
             # See https://peps.python.org/pep-0008/#package-and-module-names
-            if "." in name:
-                name = name.replace(".", "_")
+            # The same goes for `-`.
+            if "." in name or "-" in name:
+                name = name.replace(".", "_").replace("-", "_")
                 full_path = os.path.join(path, name + ext)
 
             if name in invalid_module_names or full_path in visited_names:
